@@ -8,6 +8,7 @@ type FileIO struct {
 }
 
 func NewFileIO(fileName string) (*FileIO, error) {
+	defer verifIO("open", fileName, 0)()
 	// 打开文件, 不存在则创建
 	fd, err := os.OpenFile(
 		fileName,
@@ -25,14 +26,17 @@ func (fio *FileIO) Read(b []byte, offset int64) (int, error) {
 }
 
 func (fio *FileIO) Write(b []byte) (int, error) {
+	defer verifIO("write", fio.fd.Name(), int64(len(b)))()
 	return fio.fd.Write(b)
 }
 
 func (fio *FileIO) Sync() error {
+	defer verifIO("sync", fio.fd.Name(), 0)()
 	return fio.fd.Sync()
 }
 
 func (fio *FileIO) Close() error {
+	defer verifIO("close", fio.fd.Name(), 0)()
 	return fio.fd.Close()
 }
 
